@@ -381,6 +381,16 @@ def harnesses(tier):
         hs.append(Harness('maildir_uidlist_writers[tasks=%d,release<=%d]' % (nt, rw), c04_maildir.harness(_g['_mg'], nt, rw, 120 if q else 10010),
                           {'tasks': nt, 'ops': c04_maildir.OPS, 'third_party_lock_release_within_steps': rw,
                            'next_uid': 'symbolic, 2..120 (quick) / 2..10010 (thorough)'}, replay='mdwriters', task_budget=60))
+    from checks import _mdset
+    mg = dict(_g['_mg'])
+    from pymap.backend.maildir.mailbox import MailboxSet as MaildirMailboxSet
+    mg.update(MaildirMailboxSet=MaildirMailboxSet, ResponseError=_g['ResponseError'])
+    for layout in ('++', 'fs'):
+        for d in ([2] if q else [2, 3]):
+            hs.append(Harness('maildir_set_histories[%s,d=%d]' % (layout, d), _mdset.harness(mg, layout, d),
+                              {'layout': layout, 'pre_state': 'folders A and B, one message each', 'history_depth': d,
+                               'ops': 'RENAME / DELETE / CREATE / APPEND over the names A, B, C (%d forms)' % len(_mdset.OPS)},
+                              replay='mdset', task_budget=60))
     for k in range(1, (3 if q else 4) + 1):
         hs.append(Harness('copyuid_pairs[k=%d]' % k, _h_copyuid(k), {'pairs': k, 'numbers': '1..9999'},
                           replay='copyuid', task_budget=60))
@@ -407,6 +417,9 @@ def replay(harness, w):
         err = program(g, _sim, w['base'], w['m'], [(op, tuple(a) if isinstance(a, list) else a) for op, a in w['script']], check)
         if err:
             bad.append(err)
+    elif harness == 'mdset':
+        from checks import _mdset
+        bad.extend(_mdset.replay(w))
     elif harness == 'mdwriters':
         from checks import c04_maildir
         bad.extend(c04_maildir.replay(w))
